@@ -157,6 +157,10 @@ def corpus():
     ]
     out += [l.replace("SCHED ", "SCHEDX ", 1) for l in out if len(l) < 100000]
     out += [l.replace("SCHED ", "SCHEDT ", 1) for l in out if l.startswith("SCHED ") and len(l) < 100000]
+    # the free-running stress of the property text: a fresh process each, threads released together, real clock, no hooks - the very
+    # first calls of a process race each other
+    out += ["STRESS 16 200", "STRESS 16 1", "STRESS 2 1", "STRESS 64 3", "STRESS 3 1000", "STRESS 16 2", "STRESS 32 1", "STRESS 8 1"]
+    out += ["STRESS 16 %d" % k for k in (1, 1, 1, 2, 3, 5)]
     return out
 
 
@@ -274,6 +278,13 @@ def sequential_spec(readings, order):
 
 
 def oracle(line, out, mode):
+    t = line.split()
+    if t and t[0] in ("D", "R"):
+        t = t[1:]
+    if t and t[0] == "STRESS":
+        if out is None or not out.endswith("UNIQUE") or out != "OK %d UNIQUE" % (int(t[1]) * int(t[2])):
+            return "free-running threads on the real clock: %s" % (out or "")[:60]
+        return None
     p = parse(line)
     if p is None:
         return None                      # not a well-formed case: nothing to judge
@@ -325,6 +336,8 @@ def _flags(readings, res):
 
 
 def classify(line, out):
+    if "STRESS" in line.split()[:2]:
+        return "STRESS:" + (out or "").split(" ")[0]
     p = parse(line)
     if p is None:
         return "malformed:" + (out or "").split(" ")[0]
